@@ -22,6 +22,18 @@ Two worlds implement the same interface (``Env``):
     schedule.  Events get their place in the global order under a log mutex, taken while the lock /
     condition concerned is still held.
 
+Termination: in the gated world "no runnable thread while some are unfinished" is a deadlock of the code
+under test and so is an execution that is still going after the step bound (both are recorded in
+``env.deadlock`` with ``why`` = ``deadlock`` / ``stepbound`` and become C09 verdicts); in the real world a
+quiet period without any event is.  The harness itself never hangs on them: parked threads are unwound with
+``SchedAbort``, a granted thread that does not come back within ``GRANT_TIMEOUT`` is a machinery error.
+
+Exceptions of every kind raised by the code under test or by the injected failures (``KeyboardInterrupt``,
+``SystemExit`` and other ``BaseException`` subclasses included) are stored in the future by the pool threads
+of both worlds exactly like ``concurrent.futures`` does (``except BaseException``); only ``SchedAbort`` and
+``MachineryError`` belong to the harness.  A pool that the code never shuts down (its threads keep running
+after the caller resumed) is drained by the scheduler / by ``RealEnv.drain``.
+
 If an internal name the shims rely on has moved, ``MachineryError`` is raised (exit 2) - never a verdict.
 """
 
